@@ -511,6 +511,7 @@ class DFXPWriter(BaseWriter):
                         [
                             f'{k_}="{v_}"'
                             for k_, v_ in list(region_attribs.items())
+                            if k_ not in content_with_style
                         ]
                     )
 
